@@ -39,6 +39,12 @@ def build(g, t):
         return g.action(g.seq([g.label(build(g, t[1])), build(g, t[2])]))
     if k == "ref":
         return g.ref(t[1])
+    if k == "shadow":     # a label directly over an action group whose inner label reuses an outer sibling's name
+        inner = g.action(g.seq([g.label(build(g, t[2]), "k"), build(g, t[3])]))
+        outer = [g.label(build(g, t[1]), "k"), g.label(inner, "v")]
+        if len(t) > 4:
+            outer.append(build(g, t[4]))          # a predicate / state block reading the labels afterwards
+        return g.action(g.seq(outer))
     if k == "pred":       # ("pred", negated, op)
         return g.pred(t[1], t[2], key=(t[3] if len(t) > 3 else "x"), arg=(t[4] if len(t) > 4 else 0))
     if k == "state":      # ("state", op, key, arg)
@@ -211,33 +217,38 @@ PLUS, MINUS, STAR_, LP, RP, NN = 43, 45, 42, 40, 41, 110
 
 def lr_group(rng, gi, cfg=None, pure=False):
     """A tower of 1..3 left-recursive rules  A <- A a1 / .. / A ak / b1 / ..  (direct, or through one other
-    rule per alternative), operands from a small non-left-recursive expression family."""
+    rule per alternative), operands from a small non-left-recursive expression family; optionally called from a
+    non-recursive start rule that parses a further operand after it (so that operands are re-parsed at an offset
+    at which a growth attempt was abandoned)."""
     g = Gram(gi)
     g.tags.add("lr")
     height = rng.randint(1, 3)
+    wrapped = rng.random() < 0.35
+    off = 1 if wrapped else 0          # rule index of tower level L is off + L
     ops = [[PLUS, MINUS], [STAR_], [94]]
-    rules = {}          # index -> root (filled later)
-    extra = []          # bodies of helper rules (indirect alternatives / operand rules)
-    nrules = height
+    nrules = off + height
     lr = []
     pending_helpers = []
-    use_state = (not pure) and rng.random() < 0.4
-    use_err = rng.random() < 0.4
+    use_state = (not pure) and rng.random() < 0.5
+    use_err = rng.random() < 0.5
+
+    def leafop():
+        e = g.lit([NN]) if rng.random() < 0.7 else g.un("plus", g.lit([NN]))
+        if use_state and rng.random() < 0.4:      # a state change on a path that SUCCEEDS (also in the last, non-extending attempt)
+            e = g.seq([g.state(rng.choice(["set", "inc"]), "x", rng.randint(1, 2)), e])
+        if rng.random() < 0.6:
+            e = g.action(e, err=use_err and rng.random() < 0.4)
+        return e
 
     def operand(level):
         """non-left-recursive, non-nullable operand"""
         c = rng.random()
         if level < height and c < 0.6:
-            return g.ref(level + 1)
-        if c < 0.75:
-            e = g.lit([NN])
-        elif c < 0.85:
-            e = g.seq([g.lit([LP]), g.label(g.ref(1)), g.lit([RP])])
-        else:
-            e = g.un("plus", g.lit([NN]))
-        if rng.random() < 0.5:
-            e = g.action(e, err=use_err and rng.random() < 0.3)
-        return e
+            return g.ref(off + level + 1)
+        if c < 0.85:
+            return leafop()
+        e = g.seq([g.lit([LP]), g.label(g.ref(off + 1)), g.lit([RP])])
+        return g.action(e, err=use_err and rng.random() < 0.3) if rng.random() < 0.5 else e
 
     def rest(level):
         opc = rng.choice(ops[level - 1])
@@ -248,14 +259,25 @@ def lr_group(rng, gi, cfg=None, pure=False):
             items.append(g.pred(False, "true" if pure else rng.choice(["true", "eq"]), "x", rng.randint(0, 2)))
         r = operand(level)
         items.append(g.label(r) if rng.random() < 0.7 else r)
+        if rng.random() < 0.2:
+            items.append(g.un("not", g.lit([120])))   # the growth attempt is abandoned after the operand has been evaluated
         return items
 
     roots = []
+    if wrapped:
+        tail = [g.label(g.ref(2))]
+        for _ in range(rng.randint(1, 2)):
+            tail.append(g.lit([rng.choice([PLUS, MINUS, STAR_])]))
+            tail.append(g.ref(off + rng.randint(1, height)) if rng.random() < 0.5 else leafop())
+        if rng.random() < 0.5:
+            tail.append(g.lit([120]))
+        roots.append(g.action(g.seq(tail)) if rng.random() < 0.5 else g.seq(tail))
+        lr.append(0)
     for level in range(1, height + 1):
         k = rng.randint(1, 2)
         alts = []
         for j in range(k):
-            rec_ref = g.ref(level)
+            rec_ref = g.ref(off + level)
             first = g.label(rec_ref) if rng.random() < 0.8 else rec_ref
             body = g.seq([first] + rest(level))
             if rng.random() < 0.8:
@@ -268,7 +290,7 @@ def lr_group(rng, gi, cfg=None, pure=False):
                 alts.append(body)
         nb = rng.randint(1, 2)
         for j in range(nb):
-            b = operand(level) if level < height or j > 0 else g.action(g.lit([NN]))
+            b = operand(level) if level < height or j > 0 else leafop()
             if j == nb - 1 and rng.random() < 0.15:
                 b = g.un("opt", g.lit([NN]))        # a base that can match the empty string
             alts.append(b)
